@@ -198,6 +198,12 @@ def rand_scripts(rng, kind):
             main += [["create"], ["poll"], ["wake", 1000], ["poll"], ["drop", 1000]]
         return {"kind": "waker", "wakers": wk, "threads": threads, "main": main, "hprog": hprog}
     if kind == "channel":
+        if rng.random() < 0.03:
+            # one sender queues hundreds of messages before the main thread collects (the scheduler is
+            # told to run the sender first): collection has to take them all, whatever the batch size
+            n = rng.choice([130, 200, 300])
+            return {"kind": "channel", "wakers": [], "threads": [[["send", 1000 + i] for i in range(n)]],
+                    "main": [["poll"], ["poll"]], "burst": True}
         nth = rng.choice([1, 2, 3])
         threads = [[["send", 10 * t + i] for i in range(1, rng.randrange(2, 4))] + ([["isclosed"]] if rng.random() < 0.3 else [])
                    for t in range(1, nth + 1)]
@@ -328,6 +334,8 @@ def run(prop, tier, seed, replay=None):
                 # PCT: random thread priorities, 1-3 priority change points
                 c.update({"case": "pct-%d-%d" % (seed, i), "schedule": [], "seed": seed * 100000 + i, "fallback": "pct",
                           "change": sorted(rng.sample(range(1, 46), rng.choice([1, 1, 2, 2, 3])))})
+            if c.get("burst"):
+                c.update({"schedule": [1] * 4000, "fallback": "rr"})
             if kind != "waker" and rng.random() < 0.15:
                 c["fillers"] = 4095
             cases.append(c)
